@@ -365,7 +365,7 @@ class InterpolatableFunction(ABC):
                         # TODO better error message, this is nonsensible if x is array or list
                         raise ValueError(f"Out of bounds: {x} < {self._rangeMin}")
                     case EExtrapolationType.NONE:
-                        res[xLower] = self._evaluateDirectly(x[xLower])
+                        res[xLower] = self._evaluateDirectly(x[xLower], False)
                     case EExtrapolationType.CONSTANT:
                         res[xLower] = self.evaluateInterpolation(self._rangeMin)
                     case EExtrapolationType.FUNCTION:
@@ -378,11 +378,22 @@ class InterpolatableFunction(ABC):
                         # TODO better error message, this is nonsensible if x is array or list
                         raise ValueError(f"Out of bounds: {x} > {self._rangeMax}")
                     case EExtrapolationType.NONE:
-                        res[xUpper] = self._evaluateDirectly(x[xUpper])
+                        res[xUpper] = self._evaluateDirectly(x[xUpper], False)
                     case EExtrapolationType.CONSTANT:
                         res[xUpper] = self.evaluateInterpolation(self._rangeMax)
                     case EExtrapolationType.FUNCTION:
                         res[xUpper] = self.evaluateInterpolation(x[xUpper])
+
+            ## remember the direct evaluations only now, so that an adaptive update
+            ## cannot change the table in the middle of this call
+            if self._bUseAdaptiveInterpolation:
+                direct = np.zeros(x.shape, dtype=bool)
+                if self.extrapolationTypeLower == EExtrapolationType.NONE:
+                    direct |= xLower
+                if self.extrapolationTypeUpper == EExtrapolationType.NONE:
+                    direct |= xUpper
+                if np.any(direct):
+                    self.scheduleForInterpolation(x[direct], res[direct])
 
         return res
 
